@@ -793,6 +793,13 @@ fn decoys(src: &str) -> Vec<String> {
         l.swap(i, i + 1);
         out.push(l.join("\n"));
     }
+    // broken parentheses (parsing fails INSIDE them): an opening parenthesis doubled, the last closing one removed
+    if let Some(i) = src.find('(') {
+        out.push(format!("{}({}", &src[..i], &src[i..]));
+    }
+    if let Some(i) = src.rfind(')') {
+        out.push(format!("{}{}", &src[..i], &src[i + 1..]));
+    }
     // the most similar texts are parsed last (directly before the real one)
     out.reverse();
     out
